@@ -6,3 +6,6 @@ CLAIMED["C20"] = ("component-boundary rule on SSA value flow (prefixbound) + pat
 CLAIMED["C22"] = ("component-boundary rule on SSA value flow inside the BUILD-file walker + prune-path enumeration",
   "Inside FindAllBuildFiles every prefix test between the walked path and a configured directory is component-bounded, and the walk callback has a SkipDir-returning path under each of the plz-out, hidden-directory and blacklist tests. The set of directories visited at run time is not decided.",
   NOTE, "DESIGN.md 4(E1), 5(C22)")
+CLAIMED["C15"] = ("lockset dataflow (guarded field / lock balance) + path enumeration (close discipline, lost wake-up, first-caller) over package cmap",
+  "For every function of package cmap and every path: accesses to shard.m hold shard.l in the right mode; lock operations balance; a Wait channel is closed only under the write lock, for an entry read from the map and overwritten in the same critical section; no entry that may carry waiters is overwritten without closing its channel (absence must be established in the same critical section); readers that report presence/values look at the placeholder marker; the first caller of ErrMap.GetOrSet always stores a value or error. Linearizability of whole histories is not decided.",
+  NOTE, "DESIGN.md 4(E6), 5(C15)")
